@@ -13,6 +13,8 @@
 //   logging <threads> <per>                                  OMPL_INFORM + handler / level changes
 //   goallazy <readers> <samples> <seed>                      GoalLazySamples: sampling thread + readers of every entry point + addState
 //                                                            from the new-state callback; stop / restart / destruction while sampling
+//   goalctl <pollers> <cycles> <mode>                        GoalLazySamples control surface: start/stop cycles vs pollers of isSampling();
+//                                                            mode 1: two threads call stopSampling() at the same moment
 //   logpark <rounds>                                         directed: a handler that parks inside log() while a second thread
 //                                                            logs / replaces the handler (overlap, stale handler, order, counts)
 //   solmix <adders> <readers> <clearers> <per> <seed>        add / getSolutions / clearSolutionPaths mixed; real-time-order oracle
@@ -1572,6 +1574,109 @@ namespace
                " monotone_bad=" + std::to_string(monotoneBad.load()) + " reads=" + std::to_string(reads.load());
     }
 
+    // goalctl <pollers> <cycles> <mode>: the control surface of GoalLazySamples from several threads.
+    //   mode 0: ONE controller thread cycles startSampling() / stopSampling() while <pollers> threads poll isSampling(),
+    //           couldSample(), getStateCount() (what a planner thread does while the user starts and stops the sampling);
+    //   mode 1: after every start, TWO threads call stopSampling() at the same moment (barrier).
+    // Oracle: after stopSampling() has returned (in every caller) isSampling() is false and the sampler is not called again
+    // until the next startSampling(); every cycle samples (the sampler is called at least once after a start); no exception.
+    std::string opGoalCtl(const std::vector<std::string> &t)
+    {
+        size_t i = 1;
+        unsigned pollers = needN(t, i), cycles = needN(t, i), mode = needN(t, i);
+        if (i != t.size() || pollers > 16 || mode > 1)
+            throw vp::ParseError("goalctl");
+        auto space = std::make_shared<ob::RealVectorStateSpace>(1);
+        space->setBounds(0.0, 1.0);
+        auto si = std::make_shared<ob::SpaceInformation>(space);
+        si->setStateValidityChecker([](const ob::State *) { return true; });
+        si->setup();
+        std::atomic<unsigned long> calls{0};
+        auto sampler = [&](const ob::GoalLazySamples *, ob::State *st) {
+            unsigned long n = calls.fetch_add(1, std::memory_order_relaxed);
+            st->as<ob::RealVectorStateSpace::StateType>()->values[0] = (n % 7) / 7.0;   // 7 distinct states, then rejections
+            usleep(20);
+            return true;
+        };
+        auto goal = std::make_shared<ob::GoalLazySamples>(si, sampler, false, 0.01);
+        std::atomic<bool> done{false};
+        std::atomic<unsigned long> polls{0}, seenSampling{0};
+        std::vector<std::thread> ps;
+        for (unsigned p = 0; p < pollers; ++p)
+            ps.emplace_back([&] {
+                while (!done.load(std::memory_order_acquire))
+                {
+                    if (goal->isSampling())
+                        seenSampling.fetch_add(1, std::memory_order_relaxed);
+                    (void)goal->couldSample();
+                    (void)goal->getStateCount();
+                    polls.fetch_add(1, std::memory_order_relaxed);
+                }
+            });
+        unsigned long stillSampling = 0, calledAfterStop = 0, idleCycles = 0, exceptions = 0;
+        for (unsigned c = 0; c < cycles; ++c)
+        {
+            unsigned long before = calls.load();
+            goal->startSampling();
+            auto t0 = std::chrono::steady_clock::now();
+            while (calls.load() < before + 3 && std::chrono::steady_clock::now() - t0 < std::chrono::seconds(5))
+                sched_yield();
+            if (calls.load() == before)
+                ++idleCycles;
+            if (mode == 0)
+                goal->stopSampling();
+            else
+            {
+                // two callers at the same moment; a watchdog bounds the wait (two joins of one std::thread may never return)
+                auto bar = std::make_shared<SpinBarrier>(2);
+                auto finished = std::make_shared<std::atomic<unsigned>>(0);
+                auto exc = std::make_shared<std::atomic<unsigned>>(0);
+                auto stopper = [goal, bar, finished, exc] {
+                    bar->wait();
+                    try
+                    {
+                        goal->stopSampling();
+                    }
+                    catch (const std::exception &)
+                    {
+                        exc->fetch_add(1);
+                    }
+                    finished->fetch_add(1);
+                };
+                std::thread a(stopper), b(stopper);
+                auto w0 = std::chrono::steady_clock::now();
+                while (finished->load() < 2 && std::chrono::steady_clock::now() - w0 < std::chrono::seconds(4))
+                    usleep(200);
+                if (finished->load() < 2)
+                {
+                    // report and leave the process without joining the stuck threads
+                    std::cout << "goalctl pollers=" << pollers << " cycles=" << cycles << " mode=" << mode << " hung_in_cycle=" << c
+                              << " finished_callers=" << finished->load() << " exceptions=" << exc->load() << std::endl;
+                    std::_Exit(0);
+                }
+                a.join();
+                b.join();
+                exceptions += exc->load();
+            }
+            if (goal->isSampling())
+                ++stillSampling;
+            unsigned long after = calls.load();
+            usleep(300);
+            if (calls.load() != after)
+                ++calledAfterStop;
+        }
+        done = true;
+        for (auto &x : ps)
+            x.join();
+        std::size_t count = goal->getStateCount();
+        goal.reset();
+        return "goalctl pollers=" + std::to_string(pollers) + " cycles=" + std::to_string(cycles) + " mode=" + std::to_string(mode) +
+               " still_sampling=" + std::to_string(stillSampling) + " called_after_stop=" + std::to_string(calledAfterStop) +
+               " hung_in_cycle=-1 idle_cycles=" + std::to_string(idleCycles) + " exceptions=" + std::to_string(exceptions) +
+               " states=" + std::to_string(count) + " polls=" + std::to_string(polls.load()) +
+               " seen_sampling=" + std::to_string(seenSampling.load());
+    }
+
     // ---------------------------------------------------------------- directed: a handler that parks inside log()
     // The console promises that OutputHandler::log() is entered by one thread at a time ("it is likely the outputhandler
     // does some I/O, so we serialize it") - handlers carry no synchronisation of their own - and, as a consequence of the
@@ -1929,6 +2034,8 @@ int main()
                 out = opLogPark(t);
             else if (t[0] == "goallazy")
                 out = opGoalLazy(t);
+            else if (t[0] == "goalctl")
+                out = opGoalCtl(t);
             else if (t[0] == "terminate")
                 out = opTerminate(t);
             else if (t[0] == "planner")
